@@ -91,12 +91,31 @@ Definition dec_otoks (v : val) : option (list otok) :=
 Definition probe_sets : list (list N) := [[]; [10; 11; 100; 101; 200]; [12; 100]].
 Definition same_setb (a b : list N) : bool :=
   forallb (fun x => mem x b) a && forallb (fun x => mem x a) b.
-(* true = the splitter's recorded output means the same as the input line on the probe sets *)
+Definition dec_nl (v : val) : option (list N) :=
+  match v with
+  | VL l => Some (map (fun e => match e with VZ z => Z.to_N z | _ => 0 end) l)
+  | _ => None
+  end.
+(* true = the recorded results for one package.use line mean what the line says, token by token, on
+   the probe sets: (1) the splitter's token tuple, (2) the (neg, pos) chunk domain.pkg_use makes of it *)
 Definition spec_split_ok (ts : list tok) (res : val) : bool :=
   match res with
   | VNone => existsb (fun t => match t with TBad => true | _ => false end) ts
-  | _ => match dec_otoks res with
-         | Some o => forallb (fun s => same_setb (out_fold o s) (line_fold None ts s)) probe_sets
-         | None => false
-         end
+  | VL [toks; _; _] =>
+      match dec_otoks toks with
+      | Some o => forallb (fun s => same_setb (out_fold o s) (line_fold None ts s)) probe_sets
+      | None => false
+      end
+  | _ => false
+  end.
+Definition spec_line_ok (ts : list tok) (res : val) : bool :=
+  match res with
+  | VNone => existsb (fun t => match t with TBad => true | _ => false end) ts
+  | VL [_; ng; ps] =>
+      match dec_nl ng, dec_nl ps with
+      | Some n, Some p =>
+          forallb (fun s => same_setb (apply_chunk (mkc KAll n p) s) (line_fold None ts s)) probe_sets
+      | _, _ => false
+      end
+  | _ => false
   end.
